@@ -824,6 +824,368 @@ func dial(o *hx.Out, ln net.Listener, cat string, pw []byte, mk func(id int32) [
 	}
 }
 
+// ---------------------------------------------------------------- extension: any payload length, multi-frame
+// responses, advancing request ids, several connections of one listener
+
+// patBytes: position-dependent bytes (the driver builds the same list from n and f)
+func patBytes(n int, f byte) []byte {
+	b := make([]byte, n)
+	for i := range b {
+		b[i] = byte(int(f) + 7*i + i/251)
+	}
+	return b
+}
+
+func cksum(b []byte) uint64 {
+	h := uint64(0)
+	for _, x := range b {
+		h = (h*31 + uint64(x)) % 1000000007
+	}
+	return h
+}
+
+// wrn: WritePacket on a payload of n bytes (far above the limit too): the declared length, the size of the
+// frame, and whether ReadPacket takes it back
+func wrn(o *hx.Out, cat string, id, ty int32, n int, f byte) {
+	pl := patBytes(n, f)
+	m := newMem(nil)
+	c := &mcnet.RCONConn{Conn: m}
+	var err error
+	p := hx.Try(func() { err = c.WritePacket(id, ty, string(pl)) })
+	got := m.out.Bytes()
+	head := got
+	if len(head) > 12 {
+		head = head[:12]
+	}
+	decl := int64(0)
+	if len(got) >= 4 {
+		decl = int64(int32(binary.LittleEndian.Uint32(got)))
+	}
+	m2 := newMem(got)
+	c2 := &mcnet.RCONConn{Conn: m2}
+	var (
+		rid, rty int32
+		rpl      string
+		rerr     error
+	)
+	p2 := hx.Try(func() { rid, rty, rpl, rerr = c2.ReadPacket() })
+	o.Case(cat, true, fmt.Sprintf("wrn %d %d %d %d", id, ty, n, f),
+		fmt.Sprintf("wrn %s len=%d decl=%d wr=%s rd=%s", hx.Hex(head), len(got), decl, outcome(p, err), outcome(p2, rerr)))
+	if p != "" || err != nil || len(got) != n+14 || decl != int64(int32(uint32(n+10))) || !bytes.Equal(got[12:12+n], pl) {
+		o.Fail("C16.write.oversize", "payload %d: frame of %d bytes declares %d (err=%v panic=%s)", n, len(got), decl, err, p)
+		return
+	}
+	if n <= refMaxPl {
+		if p2 != "" || rerr != nil || rid != id || rty != ty || rpl != string(pl) || m2.in.Len() != 0 {
+			o.Fail("C16.roundtrip", "payload %d written but read back as (%d,%d,len %d) err=%v panic=%s", n, rid, rty, len(rpl), rerr, p2)
+		}
+	} else if p2 != "" || rerr == nil {
+		o.Fail("C16.reject.large", "a written frame with payload %d was read back without error (panic=%s)", n, p2)
+	}
+}
+
+// refSplit: pieces of at most refMaxPl bytes, at least one piece
+func refSplit(b []byte) [][]byte {
+	var out [][]byte
+	for len(b) > refMaxPl {
+		out = append(out, b[:refMaxPl])
+		b = b[refMaxPl:]
+	}
+	return append(out, b)
+}
+
+// mresp: a response of n bytes sent as one RespCmd per piece, received by as many Resp calls
+func mresp(o *hx.Out, cat string, id int32, n int, f byte) {
+	resp := patBytes(n, f)
+	pieces := refSplit(resp)
+	c2s, s2c := &bytes.Buffer{}, &bytes.Buffer{}
+	cl := &mcnet.RCONConn{Conn: &memConn{in: s2c, out: c2s}, ReqID: id}
+	sv := &mcnet.RCONConn{Conn: &memConn{in: c2s, out: s2c}, ReqID: id}
+	werr := ""
+	for _, pc := range pieces {
+		var err error
+		if p := hx.Try(func() { err = sv.RespCmd(string(pc)) }); p != "" || err != nil {
+			werr = fmt.Sprintf("RespCmd err=%v panic=%s", err, p)
+		}
+	}
+	wire := s2c.Len()
+	var got []byte
+	var lens []string
+	recv := "ok"
+	k := 0
+	for range pieces {
+		var (
+			r   string
+			err error
+		)
+		p := hx.Try(func() { r, err = cl.Resp() })
+		if p != "" {
+			recv = "panic"
+			break
+		}
+		if err != nil {
+			recv = "err"
+			break
+		}
+		k++
+		got = append(got, r...)
+		lens = append(lens, fmt.Sprint(len(r)))
+	}
+	o.Case(cat, n > 0, fmt.Sprintf("mresp %d %d %d", id, n, f),
+		fmt.Sprintf("mresp frames=%d wire=%d recv=%s n=%d left=%d ck=%d lens=%s", len(pieces), wire, recv, k, s2c.Len(), cksum(got), strings.Join(lens, ",")))
+	if werr != "" || recv != "ok" || !bytes.Equal(got, resp) || s2c.Len() != 0 {
+		o.Fail("C16.multi.response", "response of %d bytes in %d pieces: received %d pieces, %d bytes, equal=%v, left=%d (%s)", n, len(pieces), k, len(got), bytes.Equal(got, resp), s2c.Len(), werr)
+	}
+	// the same response in ONE RespCmd must be refused by the client when it is above the limit
+	if n > refMaxPl {
+		s2c.Reset()
+		_ = sv.RespCmd(string(resp))
+		var err error
+		p := hx.Try(func() { _, err = cl.Resp() })
+		if p != "" || err == nil {
+			o.Fail("C16.reject.large", "one RespCmd with %d bytes accepted by Resp (panic=%s)", n, p)
+		}
+	}
+}
+
+// incr: a client that advances its request id after every exchange (ReqID is an exported field)
+func incr(o *hx.Out, cat string, id0, sid0 int32, pairs [][2][]byte) {
+	c2s, s2c := &bytes.Buffer{}, &bytes.Buffer{}
+	cl := &mcnet.RCONConn{Conn: &memConn{in: s2c, out: c2s}, ReqID: id0}
+	sv := &mcnet.RCONConn{Conn: &memConn{in: c2s, out: s2c}, ReqID: sid0}
+	var obs []string
+	bad := ""
+loop:
+	for i, pr := range pairs {
+		id := cl.ReqID
+		steps := []func() (string, error){
+			func() (string, error) { return "S", cl.Cmd(string(pr[0])) },
+			func() (string, error) { s, err := sv.AcceptCmd(); return "C:" + hx.Hex([]byte(s)), err },
+			func() (string, error) { return "S", sv.RespCmd(string(pr[1])) },
+			func() (string, error) { s, err := cl.Resp(); return "R:" + hx.Hex([]byte(s)), err },
+		}
+		want := []string{"S", "C:" + hx.Hex(pr[0]), "S", "R:" + hx.Hex(pr[1])}
+		for j, st := range steps {
+			var (
+				t   string
+				err error
+			)
+			p := hx.Try(func() { t, err = st() })
+			if p != "" {
+				obs = append(obs, "P")
+				bad = fmt.Sprintf("exchange %d step %d panic %s", i, j, p)
+				break loop
+			}
+			if err != nil {
+				obs = append(obs, "E")
+				if len(pr[0]) <= refMaxPl && len(pr[1]) <= refMaxPl {
+					bad = fmt.Sprintf("exchange %d under id %d step %d: %v", i, id, j, err)
+				}
+				break loop
+			}
+			obs = append(obs, t)
+			if t != want[j] && bad == "" {
+				bad = fmt.Sprintf("exchange %d under id %d step %d: got %.60s want %.60s", i, id, j, t, want[j])
+			}
+			if j == 1 && sv.ReqID != id && bad == "" {
+				bad = fmt.Sprintf("exchange %d: server holds id %d, client uses %d", i, sv.ReqID, id)
+			}
+		}
+		cl.ReqID++ // int32: wraps from MaxInt32 to MinInt32
+	}
+	var cs strings.Builder
+	fmt.Fprintf(&cs, "incr %d %d", id0, sid0)
+	for _, pr := range pairs {
+		fmt.Fprintf(&cs, " %s %s", hx.Hex(pr[0]), hx.Hex(pr[1]))
+	}
+	o.Case(cat, len(pairs) >= 2, cs.String(), fmt.Sprintf("incr %s | sid=%d", strings.Join(obs, " "), sv.ReqID))
+	if bad != "" {
+		o.Fail("C16.reqid.follow", "start id %d: %s", id0, bad)
+	}
+}
+
+type mev struct {
+	conn int
+	kind byte // 'C' 'A' 'R' 'V'
+	data []byte
+}
+
+// multi: k clients logged in through ONE listener; their exchanges interleaved
+func multi(o *hx.Out, l *mcnet.RCONListener, cat string, k int, evs []mev) {
+	if tcpBroken {
+		return
+	}
+	pw := "shared-password"
+	type acc struct {
+		c   *mcnet.RCONConn
+		err error
+	}
+	ch := make(chan acc, k)
+	go func() {
+		for i := 0; i < k; i++ {
+			sc, err := l.Accept()
+			if err != nil {
+				ch <- acc{nil, err}
+				continue
+			}
+			rc := sc.(*mcnet.RCONConn)
+			rc.Conn.SetDeadline(time.Now().Add(5 * time.Second))
+			fresh := rc.ReqID
+			err = sc.AcceptLogin(pw)
+			if err == nil && fresh != 0 {
+				err = fmt.Errorf("accepted connection starts with request id %d", fresh)
+			}
+			ch <- acc{rc, err}
+		}
+	}()
+	var cls, svs []*mcnet.RCONConn
+	fail := ""
+	for i := 0; i < k; i++ {
+		var (
+			client mcnet.RCONClientConn
+			cerr   error
+		)
+		cp := hx.Try(func() { client, cerr = mcnet.DialRCON(l.Addr().String(), pw) })
+		a := <-ch
+		rc, _ := client.(*mcnet.RCONConn)
+		if cp != "" || cerr != nil || a.err != nil || rc == nil || a.c == nil {
+			fail = fmt.Sprintf("connection %d: client err=%v panic=%q server err=%v", i, cerr, cp, a.err)
+			if rc != nil && rc.Conn != nil {
+				rc.Conn.Close()
+			}
+			if a.c != nil {
+				a.c.Close()
+			}
+			break
+		}
+		rc.Conn.SetDeadline(time.Now().Add(5 * time.Second))
+		cls, svs = append(cls, rc), append(svs, a.c)
+	}
+	defer func() {
+		for i := range cls {
+			cls[i].Conn.Close()
+			svs[i].Close()
+		}
+	}()
+	if fail != "" {
+		// the acceptor goroutine may still sit in Accept: no further TCP cases after this one
+		o.Fail("C16.multi.isolation", "%s", fail)
+		tcpBroken = true
+		return
+	}
+	obs := make([][]string, k)
+	dead := make([]bool, k)
+	pend := make([][][]byte, k)  // commands sent, not yet accepted (reference queue per connection)
+	pendR := make([][][]byte, k) // responses sent, not yet received
+	for _, e := range evs {
+		i := e.conn
+		if dead[i] {
+			continue
+		}
+		var (
+			t   string
+			err error
+		)
+		p := hx.Try(func() {
+			switch e.kind {
+			case 'C':
+				err = cls[i].Cmd(string(e.data))
+				t = "S"
+				pend[i] = append(pend[i], e.data)
+			case 'R':
+				err = svs[i].RespCmd(string(e.data))
+				t = "S"
+				pendR[i] = append(pendR[i], e.data)
+			case 'A':
+				var s string
+				s, err = svs[i].AcceptCmd()
+				t = "C:" + hx.Hex([]byte(s))
+				if err == nil && (len(pend[i]) == 0 || !bytes.Equal(pend[i][0], []byte(s))) {
+					fail = fmt.Sprintf("connection %d: server accepted %.60s, which this client did not send next", i, hx.Hex([]byte(s)))
+				}
+				if len(pend[i]) > 0 {
+					pend[i] = pend[i][1:]
+				}
+				if err == nil && svs[i].ReqID != cls[i].ReqID {
+					fail = fmt.Sprintf("connection %d: server holds id %d, client %d", i, svs[i].ReqID, cls[i].ReqID)
+				}
+			case 'V':
+				var s string
+				s, err = cls[i].Resp()
+				t = "R:" + hx.Hex([]byte(s))
+				if err == nil && (len(pendR[i]) == 0 || !bytes.Equal(pendR[i][0], []byte(s))) {
+					fail = fmt.Sprintf("connection %d: client received %.60s, which its server did not send next", i, hx.Hex([]byte(s)))
+				}
+				if len(pendR[i]) > 0 {
+					pendR[i] = pendR[i][1:]
+				}
+			}
+		})
+		if p != "" {
+			t, dead[i] = "P", true
+			fail = fmt.Sprintf("connection %d: panic %s", i, p)
+		} else if err != nil {
+			t, dead[i] = "E", true
+			fail = fmt.Sprintf("connection %d: event %c: %v", i, e.kind, err)
+		}
+		obs[i] = append(obs[i], t)
+	}
+	var cs, ls strings.Builder
+	fmt.Fprintf(&cs, "multi %d", k)
+	for i := 0; i < k; i++ {
+		fmt.Fprintf(&cs, " %d", cls[i].ReqID)
+	}
+	for _, e := range evs {
+		tok := string(e.kind)
+		if e.kind == 'C' || e.kind == 'R' {
+			tok += ":" + hx.Hex(e.data)
+		}
+		fmt.Fprintf(&cs, " %d/%s", e.conn, tok)
+	}
+	ls.WriteString("multi")
+	for i := 0; i < k; i++ {
+		fmt.Fprintf(&ls, " %d=[%s]", i, strings.Join(obs[i], " "))
+	}
+	o.Case(cat, true, cs.String(), ls.String())
+	if fail != "" {
+		o.Fail("C16.multi.isolation", "%d connections: %s", k, fail)
+	}
+}
+
+// genMulti: interleaved exchanges; A / V only when something is pending on that connection (a read on a
+// real socket with nothing to come would wait for its deadline)
+func genMulti(r *hx.Rng, k, n int) []mev {
+	var evs []mev
+	pc, pa, pr := make([]int, k), make([]int, k), make([]int, k)
+	for len(evs) < n {
+		i := r.Intn(k)
+		tag := []byte{byte('0' + i), '#'}
+		switch r.Intn(4) {
+		case 0:
+			evs = append(evs, mev{i, 'C', append(append([]byte{}, tag...), genBytes(r, r.Intn(20))...)})
+			pc[i]++
+		case 1:
+			if pc[i] > 0 {
+				evs = append(evs, mev{i, 'A', nil})
+				pc[i]--
+				pa[i]++
+			}
+		case 2:
+			if pa[i] > 0 {
+				evs = append(evs, mev{i, 'R', append(append([]byte{}, tag...), genBytes(r, r.Intn(20))...)})
+				pa[i]--
+				pr[i]++
+			}
+		default:
+			if pr[i] > 0 {
+				evs = append(evs, mev{i, 'V', nil})
+				pr[i]--
+			}
+		}
+	}
+	return evs
+}
+
 // ---------------------------------------------------------------- main
 
 func main() {
@@ -1119,5 +1481,49 @@ func main() {
 			f, _, ok := refParse(ans)
 			return ok && f.id == id, true
 		})
+	}
+
+	// ---- extension: the unchecked writer far above the limit
+	for _, n := range []int{0, 1, refMaxPl, refMaxPl + 1, 4096, 4097, 8192, 65526, 65536, 100000} {
+		wrn(o, "wrn.len", genInt(r), genInt(r), n, byte(r.Next()))
+	}
+	for i, n := 0, o.N(40, 4); i < n; i++ {
+		wrn(o, "wrn.random", genInt(r), genInt(r), r.Pick(r.Intn(5000), refMaxPl-r.Intn(3), refMaxPl+1+r.Intn(3), 4000+r.Intn(90000)), byte(r.Next()))
+	}
+	// ---- extension: responses of any length in several frames
+	for _, n := range []int{0, 1, refMaxPl - 1, refMaxPl, refMaxPl + 1, 2 * refMaxPl, 2*refMaxPl + 1, 10000, 3*refMaxPl - 1, 50000} {
+		mresp(o, "mresp.len", genInt(r), n, byte(r.Next()))
+	}
+	for i, n := 0, o.N(40, 4); i < n; i++ {
+		mresp(o, "mresp.random", genInt(r), r.Pick(r.Intn(300), r.Intn(3*refMaxPl), refMaxPl*(1+r.Intn(4))+r.Intn(3)-1), byte(r.Next()))
+	}
+	// ---- extension: a client advancing its request id, across the int32 boundary
+	smallPairs := func(k int) [][2][]byte {
+		var ps [][2][]byte
+		for j := 0; j < k; j++ {
+			ps = append(ps, [2][]byte{genBytes(r, r.Intn(16)), genBytes(r, r.Intn(16))})
+		}
+		return ps
+	}
+	for _, id0 := range []int32{math.MaxInt32, math.MaxInt32 - 1, math.MaxInt32 - 2, -2, -1, 0, math.MinInt32, 255, 65535, 0x7fffff00} {
+		incr(o, "incr.boundary", id0, genInt(r), smallPairs(4))
+	}
+	for i, n := 0, o.N(150, 6); i < n; i++ {
+		id0 := genInt(r)
+		if i%3 == 0 {
+			id0 = math.MaxInt32 - int32(r.Intn(4))
+		}
+		ps := smallPairs(1 + r.Intn(6))
+		if r.Intn(15) == 0 {
+			ps[r.Intn(len(ps))][r.Intn(2)] = genBytes(r, refMaxPl+r.Intn(2))
+		}
+		incr(o, "incr.random", id0, genInt(r), ps)
+	}
+	// ---- extension: several connections of one listener, exchanges interleaved
+	multi(o, l, "multi.fixed", 2, []mev{{0, 'C', []byte("0#a")}, {1, 'C', []byte("1#b")}, {1, 'A', nil}, {0, 'A', nil},
+		{1, 'R', []byte("1#rb")}, {0, 'R', []byte("0#ra")}, {0, 'V', nil}, {1, 'V', nil}})
+	for i, n := 0, o.N(60, 4); i < n; i++ {
+		k := 2 + r.Intn(4)
+		multi(o, l, "multi.random", k, genMulti(r, k, 6+r.Intn(40)))
 	}
 }
